@@ -19,8 +19,8 @@ RULE = ("two correspondences with the real DumpMempool/LoadMempool. 'file': memp
         "bytes, the pre-load pool and the set of transactions that independent normal submission (PrioritiseTransaction + "
         "AcceptToMemoryPool in saved order) accepts. non-trivial = at least one record / one transaction; distinct = distinct case lines")
 ASSUMPTIONS = ["transaction serialization round trip (unser (ser t ++ rest) = Ok t rest) and 'every strict prefix of a serialized transaction fails to "
-               "parse' are Section premises of the abstract theorems; the round trip is discharged for the SerTx codec (C55_instance_roundtrip), "
-               "the prefix premise is used for the truncation theorem only",
+               "parse' are premises of the abstract theorems; both are discharged for the SerTx codec that the extracted model runs "
+               "(C55_instance_codec_roundtrip, C55_instance_codec_prefix; side condition of the extended format: no transaction with outputs but no inputs)",
                "normal submission is the abstract function `accept` of (pool state, transaction, accept time); evictions performed by normal submission "
                "itself (RBF, size limit, Expire inside AcceptToMemoryPool) are not modelled and are avoided by the scenario generator",
                "0 <= now and expiry small enough that NodeClock arithmetic in nanoseconds does not wrap (the generator uses |values| < 2^40)",
